@@ -38,6 +38,9 @@ ARG_EXPR = list(DATA) + ['af', 'ag', 'ax', 'al', '(v => v)', '((a, b) => a)', '(
                          '%s.format%', '%l.0%', '%d.a%', '%l.__len__%', '%fmt.format%']
 
 
+FOCUS = ['s', 'rx', 'l', 'd', '(v => v)', '((a, b) => a)', '1', '"b"']
+
+
 def host_names():
     n = copy.deepcopy(DATA)
     x = [1]
@@ -91,6 +94,18 @@ def cases(ctx):
                 if n % ctx.nshards == ctx.shard:
                     yield ('call', name, k, rnd.getrandbits(40))
                 n += 1
+    # (1d) every table entry with every short tuple over a small focused pool (subject, pattern, list, dict, program lambdas, scalar): the argument
+    #      shapes an entry of a given family expects (text + pattern + callback ...) all occur, for entries added to the table later as well
+    import itertools
+    for name in ctx.fn_names:
+        for k in (2, 3, 4):
+            tuples = list(itertools.product(FOCUS, repeat=k))
+            if k == 4 or (ctx.quick and k == 3):
+                tuples = rnd.sample(tuples, ctx.scale(24 if k == 4 else 64, 400))
+            for t in tuples:
+                if n % ctx.nshards == ctx.shard:
+                    yield ('callx', name, t)
+                n += 1
     # (1c) parameter names of the implementations (introspection), spelled the way a keyword argument would be: on the shipped grammar these are syntax
     #      errors; a tree that accepts them must still only hand out plain data
     import inspect
@@ -136,7 +151,7 @@ def call_source(ctx, name, k, seed):
     elif form == 3:
         call = 'r = %s(%s)\nq = [r, {"k": r}]\nq[0]' % (name, ', '.join(args))
     elif form == 4:
-        call = '%s(%s)[%s]' % (name, ', '.join(args), r.choice(['0', '"k"', '0:1', '::-1', 's', 'dun', '-1']))
+        call = '%s(%s)[%s]' % (name, ', '.join(args), r.choice(['0', '"k"', '0:1', '::-1', 's', 'dun', '-1', '1.5', '0.25', '-0.5', '2.0']))
     else:
         call = 'map([%s], v => %s(v%s))' % (args[0], name, ''.join(', ' + a for a in args[1:]))
     return call
@@ -159,6 +174,10 @@ def run_case(case, ctx):
     elif kind == 'call':
         src = call_source(ctx, case[1], case[2], case[3])
         ctx.cov('builtins_called', case[1])
+    elif kind == 'callx':
+        src = '%s(%s)' % (case[1], ', '.join(case[2]))
+        ctx.cov('builtins_called', case[1])
+        ctx.count('focused_argument_tuples')
     elif kind == 'pair':
         # two evals in a row in this process; the second one is the monitored one (the first only has to have happened)
         try:
